@@ -81,6 +81,6 @@ def last_mark(ctx):
                           '' if ok else '%s appends a new element to %s and re-marks element [%s] as no longer last (%s stores %s = %#x); the element that stops being '
                           'last is %s[-1]: with three or more elements the ones in between keep the final-element value, readers stop at the first of them and '
                           'open() refuses the image the library wrote' % (fi.qual, lst, norm(idx), c.func.attr, rm[0][0], rm[0][1], lst)))
-    if n < 1:
-        raise AnalysisError('anchor-vanished: re-marking of the previously last element before an append (0)')
+    # a design that derives the mark from the position when the record is written has no such call: no floor
+    obs.append(Ob('SA-COORD.last_mark', 'appends that re-mark the previously last element examined', True, '', '%d' % n))
     return obs
